@@ -806,6 +806,14 @@ class LangServer:
                 [],
             )
             return var
+        # An argument keyword (name=value in an actual argument list) names the dummy
+        # argument of the procedure that is called, not an entity of this scope
+        if not is_member:
+            keyword_obj = self._get_keyword_argument(
+                def_file, def_line, def_char, def_name, pre_lines, curr_line
+            )
+            if keyword_obj is not None:
+                return keyword_obj
         curr_scope = def_file.ast.get_inner_scope(def_line + 1)
         # Traverse type tree if necessary
         if is_member:
@@ -870,6 +878,62 @@ class LangServer:
 
         else:
             return var_obj
+        return None
+
+    def _get_keyword_argument(
+        self,
+        def_file: FortranFile,
+        def_line: int,
+        def_char: int,
+        def_name: str,
+        pre_lines: list[str],
+        curr_line: str,
+    ):
+        """The dummy argument that ``def_name`` names when it is written as an
+        argument keyword (``call sub(name=value)``), ``None`` in every other case"""
+        word = next(
+            (
+                match
+                for match in FRegex.WORD.finditer(curr_line)
+                if match.start(0) <= def_char <= match.end(0)
+                and match.group(0) == def_name
+            ),
+            None,
+        )
+        if word is None:
+            return None
+        after = curr_line[word.end(0) :].lstrip()
+        if not after.startswith("=") or after[:2] in ("==", "=>"):
+            return None
+        prefix = strip_strings("".join(pre_lines) + curr_line[: word.start(0)], True)
+        if prefix.rstrip()[-1:] not in ("(", ","):
+            return None
+        try:
+            _, sections = get_paren_level(prefix + def_name)
+            if not sections or sections[0].start <= 1:
+                return None
+            call_string, _ = get_paren_level(prefix[: sections[0].start - 1])
+            var_stack = get_var_stack(call_string.strip())
+        except (TypeError, AttributeError, IndexError):
+            return None
+        if not var_stack:
+            return None
+        curr_scope = def_file.ast.get_inner_scope(def_line + 1)
+        if len(var_stack) > 1:
+            curr_scope = climb_type_tree(var_stack, curr_scope, self.obj_tree)
+        callee = None
+        if curr_scope is not None:
+            callee = find_in_scope(curr_scope, var_stack[-1], self.obj_tree)
+        if callee is None and len(var_stack) == 1:
+            entry = self.obj_tree.get(var_stack[-1].lower())
+            callee = entry[0] if entry is not None else None
+        # A type-bound procedure or a procedure pointer stands for its target
+        for _ in range(3):
+            if getattr(callee, "arg_objs", None) is None:
+                callee = getattr(callee, "link_obj", None)
+        for arg_obj in getattr(callee, "arg_objs", None) or []:
+            if arg_obj is not None and arg_obj.name.lower() == def_name.lower():
+                return arg_obj
         return None
 
     def serve_signature(self, request: dict):
